@@ -245,18 +245,22 @@ static void init_rule_rows(const char* cls, int gen, Solver& eigs, const V& zero
         l.str("cls", cls).i("zero", 0);
         attempt(l, [&]() { eigs.init(nonzero.data()); });
     }
+    const int maxits[3] = {0, 1, 30};
     for (int role = 0; role < 2; role++)
         for (int rule = 0; rule < 9; rule++)
+        for (int mi = 0; mi < 3; mi++)
         {
+            const int mx = maxits[mi];
             Line l("Rule");
-            l.str("cls", cls).i("gen", gen).i("role", role).i("rule", rule);
-            // role 0: selection argument, role 1: sorting argument (with a supported selection)
+            l.str("cls", cls).i("gen", gen).i("role", role).i("rule", rule).i("maxit", mx);
+            // role 0: selection argument, role 1: sorting argument (with a supported selection); the rule must be
+            // validated whether or not anything has converged (maxit = 0, 1)
             attempt(l, [&]() {
                 eigs.init();
                 if (role == 0)
-                    eigs.compute((SortRule) rule, 30, 1e-8, gen ? SortRule::LargestMagn : SortRule::LargestAlge);
+                    eigs.compute((SortRule) rule, mx, 1e-8, gen ? SortRule::LargestMagn : SortRule::LargestAlge);
                 else
-                    eigs.compute(SortRule::LargestMagn, 30, 1e-8, (SortRule) rule);
+                    eigs.compute(SortRule::LargestMagn, mx, 1e-8, (SortRule) rule);
             });
             // after a rejected call the object is still usable: a following init(); compute() succeeds
             Line l2("AfterRule");
